@@ -16,7 +16,7 @@ func vfGenWindowSpec(idx int, seed uint64) vfSpec {
 	r := vfNewRand(vfHash(seed, uint64(idx), 0xC10))
 	sp := vfGenTransferSpec("C10", idx, seed^0x1010, 1, 100)
 	sp.ID = fmt.Sprintf("C10-win-%d", idx)
-	kinds := []string{"rwnd-small", "slow-reader", "sack-loss", "gaps", "mtu", "pause", "mincwnd", "generic"}
+	kinds := []string{"rwnd-small", "slow-reader", "sack-loss", "gaps", "mtu", "pause", "mincwnd", "generic", "first-flight"}
 	sp.Kind = kinds[idx%len(kinds)]
 	mtus := []uint32{0, 96, 256, 576, 1191, 1500, 8192}
 	sp.A.MTU = mtus[r.Intn(len(mtus))]
@@ -43,6 +43,16 @@ func vfGenWindowSpec(idx int, seed uint64) vfSpec {
 		sp.Link = vfLinkCfg{DelayUs: int64(r.Pick(5000, 20000)), SackLossPm: r.Pick(300, 600, 900)}
 	case "gaps":
 		sp.Link = vfLinkCfg{DelayUs: int64(r.Pick(5000, 20000)), DataLossPm: r.Pick(50, 150, 300), JitterUs: int64(r.Pick(0, 20000, 60000))}
+	case "first-flight":
+		// before the first SACK the only window known is the one of the handshake: the side that answered the
+		// INIT sends first, its congestion window larger than the peer's (small) buffer
+		sp.A.RecvBuf = uint32(r.Pick(4096, 16384, 50000)) //nolint:gosec
+		sp.B.MinCwnd = uint32(r.Pick(60000, 300000))      //nolint:gosec
+		sp.Link = vfLinkCfg{DelayUs: int64(r.Pick(20000, 100000))}
+		sp.Streams = nil
+		for i := 0; i < 1+r.Intn(2); i++ {
+			sp.Streams = append(sp.Streams, vfStreamCfg{SID: uint16(i + 1), Dir: 1, NMsgs: 60 + r.Intn(60), SizeMode: "small", Reader: []string{"fast", "slow"}[r.Intn(2)]}) //nolint:gosec
+		}
 	case "mincwnd":
 		sp.A.MinCwnd = uint32(r.Pick(2000, 8000, 30000)) //nolint:gosec
 		sp.B.MinCwnd = uint32(r.Pick(0, 8000))           //nolint:gosec
